@@ -309,6 +309,9 @@ func runC11(col *Collector, tier string, seed int64) {
 	for k := 0; k < 4; k++ {
 		sharedProducerCase(col, 2+k%2)
 	}
+	for k := 0; k < 3; k++ {
+		sharedProducerParallelCase(col, 3+k)
+	}
 	_ = unicode.IsUpper
 }
 
@@ -357,6 +360,59 @@ func sharedProducerCase(col *Collector, uses int) {
 		cs.Fail, cs.Sig = fmt.Sprintf("captured output after the last execution is %q, that execution wrote %q", p.Output(), want), "c11-capture"
 	case string(seen) != want+"\n":
 		cs.Fail, cs.Sig = fmt.Sprintf("consumer read %q, the producer's last output is %q", string(seen), want), "c11-handover"
+	}
+	col.Add(cs)
+}
+
+// the same producer task used by a first stage, then by two stages running side by side (their writes interleave in
+// time), then a consumer: what is captured and handed over is the complete output of ONE execution, never a mixture
+func sharedProducerParallelCase(col *Collector, lines int) {
+	dir := newScratchDir("c11p")
+	defer os.RemoveAll(dir)
+	p := task.NewTask()
+	p.Name = "emit"
+	var sb strings.Builder
+	for i := 1; i <= lines; i++ {
+		fmt.Fprintf(&sb, "echo ${WHO}%d; sleep ${PAUSE:-0}; ", i)
+	}
+	p.Commands = []string{strings.TrimSuffix(sb.String(), "; ")}
+	st := func(name, who, pause string, deps ...string) *scheduler.Stage {
+		return &scheduler.Stage{Name: name, Task: p, DependsOn: deps, Env: variables.FromMap(map[string]string{"WHO": who, "PAUSE": pause})}
+	}
+	out := filepath.Join(dir, "seen")
+	c := task.FromCommands(fmt.Sprintf("printenv EMIT_OUTPUT > %s", out))
+	c.Name = "consumer"
+	stages := []*scheduler.Stage{st("first", "f", "0"), st("left", "a", "0.04", "first"), st("right", "b", "0.04", "first"),
+		{Name: "consumer", Task: c, DependsOn: []string{"left", "right"}}}
+	cs := Case{Tags: []string{"shared-producer", "shared-producer-parallel"}, NonTrivial: true,
+		Replay: fmt.Sprintf("shared producer: one execution, then two side by side writing %d lines each with pauses, then a consumer", lines)}
+	g, err := scheduler.NewExecutionGraph(stages...)
+	if err != nil {
+		cs.Fail, cs.Sig = err.Error(), "c11-build"
+		col.Add(cs)
+		return
+	}
+	r, _ := runner.NewTaskRunner()
+	r.Stdout, r.Stderr = devNull{}, devNull{}
+	sd := scheduler.NewScheduler(r)
+	sd.VerifSetPause(time.Millisecond)
+	if err := sd.Schedule(g); err != nil {
+		cs.Fail, cs.Sig = "pipeline failed: "+err.Error(), "c11-run"
+		col.Add(cs)
+		return
+	}
+	whole := func(who string) string {
+		var b strings.Builder
+		for i := 1; i <= lines; i++ {
+			fmt.Fprintf(&b, "%s%d\n", who, i)
+		}
+		return b.String()
+	}
+	seen, _ := os.ReadFile(out)
+	got := strings.TrimSuffix(string(seen), "\n") // printenv adds one newline
+	cs.Impl = clip([]byte(got))
+	if got != whole("a") && got != whole("b") {
+		cs.Fail, cs.Sig = fmt.Sprintf("consumer read %q: neither the complete output of the one execution (%q) nor of the other (%q)", got, whole("a"), whole("b")), "c11-handover"
 	}
 	col.Add(cs)
 }
